@@ -2,9 +2,14 @@
   C02/C03 — export whole-file round trips.
 
   Proved exactly as stated: `writeExport_body`, `writeExport_lines_decode`.
-  FALSE as stated (counterexamples and corrected versions below; see the note at the end of the file):
-  `decExport_write` (needs fewer than 500 tokens), `readExport_write` (needs fewer than 500 tokens and
-  no token whose word starts with `#EOS`).
+  FALSE as stated (formal refutations `decExport_write_false`, `readExport_write_false`; corrected versions proved;
+  see the note at the end of the file):
+  * `decExport_write`  — corrected: `decExport_write'`  (extra hypothesis `hN : t.leafNums.length < 500`);
+  * `readExport_write` — corrected: `readExport_write'` (extra hypotheses `hN` and `hE`: no token word starts with `#EOS`).
+  Further named results: `writeExport_body_paths`, `writeExport_lines_decode_entry`, `writeExport_body_decode`,
+  `decExport_eq_decBody`, `writeExport_total`, `decExport_fails_flat`.
+  The proof pieces live in `TT/Lemmas/ExportRT.lean` (`writeExport_shape`, `tokPaths_nums`, `consPaths_nums`, `decode_lineAt`,
+  `buildExp_sub`, `decBody_write`, `exportBuild_sub`, `exportSentence_write`, `readExport_frame`, ...).
 -/
 import TT.Lemmas.ExportRT
 namespace TT.Props.C02Export
@@ -225,5 +230,34 @@ theorem readExport_write_false :
     exact hs
   rw [eosT_check] at this
   cases this
+
+/-
+  NOTE — statements of the brief that are FALSE as given (corrected versions are proved above):
+
+  * `decExport_write` — the specification decoder `buildExp` reads every number `1..499` as a token and every number
+      `≥ 500` as a constituent, while `ExportOK` bounds the number of constituents only.
+      counterexample: `flat 500` = `(S (A a) … (A a))` with 500 tokens; `WF` and `ExportOK {}` hold, the writer succeeds
+      (`writeExport_total`), and `decExport false ls = none` (`decExport_fails_flat`: token 500, whose parent is 0, is looked up
+      in the empty constituent table).  Formal refutation: `decExport_write_false`.
+      (`#eval`: with 499 tokens all clauses are `true`; with 500 tokens the decoder returns `none`.)
+      corrected: `decExport_write'` = the given statement plus `hN : t.leafNums.length < 500`; nothing else is needed
+      (no `uidsOK`; labels of the form `#ddd` are harmless because only the word column is inspected and `ExportOK` already
+      forbids such token words).
+
+  * `readExport_write` — false for two independent reasons:
+      1. the reader ends the sentence at the first line that STARTS with `#EOS`, so a token whose word starts with `#EOS`
+         ends it early.  counterexample `eosT` = `(S (A #EOS))`: `WF`, `ExportOK {}` hold, the text is
+         "#BOS 7\n#EOS\t\t\tA\t--\t\t--\t0\n#EOS 7\n", the reader returns `[(7, leaf 0 {VROOT})]` and `sameTree` is `false`
+         (`eosT_check`).  Formal refutation: `readExport_write_false`.
+      2. the reader keeps tokens and constituents in ONE table keyed by number (`exportBuild`), so with 500 or more tokens
+         token 500 hides constituent `#500`.  counterexample (validated with `#eval`, not formalised because evaluating it in the
+         kernel takes minutes): `(S (X (A a)×500))` — `WF`, `ExportOK {}` hold and `readExport` returns `.error .other`.
+         (A sentence of 1000 or more tokens is refused with `ValueError` by the `n > 999` test.)
+      corrected: `readExport_write'` = the given statement plus `hN : t.leafNums.length < 500` and
+         `hE : ∀ s ∈ t.subtrees, s.isLeaf = true → "#EOS".toList.isPrefixOf (s.fields.word.getD []) = false`.
+         (`hN` is sufficient, not sharp, for the reader: a flat sentence of 500..999 tokens without inner constituents is read back.)
+
+  Everything else of the brief is proved with the exact statement text.
+-/
 
 end TT.Props.C02Export
